@@ -158,7 +158,7 @@ def check_tree(root: typing.Any, types: list, lctx: typing.Any) -> typing.List[s
 # --------------------------------------------------------------------------------------------------------------------
 
 
-def expected_paths(in_dir: str, root: str, lookups: typing.List[str], opts: dict) -> typing.Tuple[typing.Set[str], typing.Set[str]]:
+def expected_paths(in_dir: str, root: str, lookups: typing.List[str], opts: dict, cfg_path: typing.Optional[str] = None) -> typing.Tuple[typing.Set[str], typing.Set[str]]:
     """The reference: (type files, namespace files) relative to the output directory."""
     import pydsdl
     from nunavut.lang import Language, LanguageContextBuilder
@@ -167,6 +167,10 @@ def expected_paths(in_dir: str, root: str, lookups: typing.List[str], opts: dict
     ext = opts.get("ext")
     if ext is not None and not ext.startswith("."):
         ext = "." + ext  # documented: nnvg heals a missing dot
+    if cfg_path:
+        import pathlib
+
+        b.add_config_files(pathlib.Path(cfg_path))
     b.set_target_language_extension(ext)
     b.set_target_language_configuration_override(Language.WKCV_NAMESPACE_FILE_STEM, opts.get("ns_stem"))
     lctx = b.create()
@@ -265,10 +269,23 @@ def run_case(case: dict, ctx: dict) -> dict:
             plan["ns_types"] = True
         if lang == "cpp" and r.chance(1, 3):
             plan["std"] = r.choice(["c++14", "c++17", "c++17-pmr", "c++20"])
+        if lang in ("c", "cpp") and r.chance(1, 5):
+            plan["no_strop"] = True  # enable_stropping: false through a --configuration file
+        if lang != "html" and r.chance(1, 5):
+            plan["templates"] = "paths"  # user templates that print type_to_include_path
     lang = plan["lang"]
     world = nnvg.World(sandbox, out_rel=plan["out_rel"], cwd_rel=plan["cwd_rel"])
     dsdlgen.materialize_files(files, roots, world.in_dir)
     out = world.out_dir
+    cfg_path = None
+    if plan.get("no_strop"):
+        cfg_path = os.path.join(world.sandbox, "no_strop.yaml")
+        with open(cfg_path, "w", encoding="utf-8") as f:
+            f.write("nunavut.lang.%s:\n  enable_stropping: false\n" % lang)
+    if plan.get("templates"):
+        from simkit import usertpl
+
+        usertpl.plant(world.tpl_dir, plan["templates"], usertpl.SETS[plan["templates"]])
     if plan.get("dirty"):
         os.makedirs(os.path.join(out, "old", "stuff"), exist_ok=True)
         with open(os.path.join(out, "old", "stuff", "leftover.h"), "w", encoding="utf-8") as f:
@@ -304,8 +321,12 @@ def run_case(case: dict, ctx: dict) -> dict:
                 opts[k] = plan[k]
         if plan.get("support"):
             opts["gen_support"] = plan["support"]
+        if plan.get("templates"):
+            opts["templates"] = plan["templates"]
+        if cfg_path:
+            opts["extra_argv"] = ["--configuration", cfg_path, "--verbose"]
         try:
-            tfiles, nfiles = expected_paths(world.in_dir, root, lookups, opts)
+            tfiles, nfiles = expected_paths(world.in_dir, root, lookups, opts, cfg_path)
         except Exception as ex:  # pylint: disable=broad-except
             bump("ops", "skipped-reference-raises:" + type(ex).__name__)
             continue
@@ -358,6 +379,12 @@ def run_case(case: dict, ctx: dict) -> dict:
                     violation("namespace-tree:%s" % re.sub(r"[^a-z]+", "-", e[3]["problems"][0].lower())[:40], dict(brief, problems=e[3]["problems"]))
         if not nnvg.succeeded(res):
             bump("ops", "run-failed")
+            # the spelling of the output directory must not decide whether generation succeeds: try the absolute one
+            if opts.get("outdir_spelling", "abs") != "abs" or opts.get("in_spelling", "abs") != "abs":
+                res2 = proc.run_invocation(world.invocation(dict(opts, outdir_spelling="abs", in_spelling="abs"), enum_seed=plan["enum_seed"] + step))
+                evaluations += 1
+                if nnvg.succeeded(res2):
+                    violation("generation-fails-only-for-this-path-spelling:%s" % res["status"], dict(brief, outdir_spelling=opts.get("outdir_spelling"), in_spelling=opts.get("in_spelling")))
             continue
         # (3) expected path set: what this run created, minus support files
         created = {p for p in post_out if p not in pre_out or post_out[p] != pre_out[p]} | {w[len("@/") + len(out_real_rel) + 1 :] for w in writes}
@@ -369,6 +396,19 @@ def run_case(case: dict, ctx: dict) -> dict:
             missing = sorted(want - nonsupport)
             k = "extra:%s" % _fk(extra_[0], nfiles, plan) if extra_ else "missing:%s" % _fk(missing[0], nfiles, plan)
             violation("path-set-%s" % k, dict(brief, extra=extra_[:5], missing=missing[:5]))
+        if plan.get("templates") == "paths":
+            for rel in sorted(nonsupport & tfiles):
+                try:
+                    with open(os.path.join(out, rel), "r", encoding="utf-8") as f:
+                        lines = f.read().split("\n")
+                except OSError:
+                    continue
+                for ln in lines:
+                    if ln.startswith("SELF ") and ln[5:] != rel:
+                        violation("type-to-include-path-differs-from-output-path", dict(brief, file=rel, filter_says=ln[5:]))
+                    elif ln.startswith("REF "):
+                        all_refs.setdefault(ln[4:], "%s (type_to_include_path, root %s)" % (rel, root))
+                bump("probes", "type_to_include_path_checked")
         created_by_root[root] = created
         all_refs.update({k: "%s (root %s)" % (v, root) for k, v in referenced_files(out, sorted(nonsupport), lang, (plan.get("ns_stem") or "__init__") + ".py").items()})
         if step > 0:
@@ -430,7 +470,7 @@ def reductions(case: dict) -> typing.Iterator[dict]:
             c = dict(case)
             c["plan"] = dict(plan, roots_order=plan["roots_order"][:i] + plan["roots_order"][i + 1 :])
             yield c
-    for k, neutral in (("dirty", False), ("ext", None), ("ns_stem", None), ("ns_types", None), ("std", None), ("support", None), ("lookup_all", False), ("cwd_rel", "cwd"), ("out_rel", "out"), ("outdir_spelling", "abs"), ("in_spelling", "abs")):
+    for k, neutral in (("dirty", False), ("no_strop", None), ("templates", None), ("ext", None), ("ns_stem", None), ("ns_types", None), ("std", None), ("support", None), ("lookup_all", False), ("cwd_rel", "cwd"), ("out_rel", "out"), ("outdir_spelling", "abs"), ("in_spelling", "abs")):
         if plan.get(k) not in (neutral, None):
             c = dict(case)
             c["plan"] = dict(plan)
